@@ -1,6 +1,7 @@
 #!/bin/bash
 # Runs every quick check that touches a changed package against every behaviour-preserving patch under /verif/benign.
-cd /verif
+cd "$(dirname "$(readlink -f "$0")")/.."
+unset BENIGN_DIR
 tools/run_benign.sh bitmapA C01,C02,C13,C19
 tools/run_benign.sh bitmapB C11,C12,C14,C15,C19
 tools/run_benign.sh bmtree C03,C04,C05,C10,C11,C19
@@ -8,7 +9,7 @@ tools/run_benign.sh bitstrword C08,C09,C19
 tools/run_benign.sh sigbits C16,C17,C19
 tools/run_benign.sh pbcmpl C06,C07,C18
 tools/run_benign.sh size C20
-export BENIGN_DIR=/verif/benign/open
+export BENIGN_DIR=$PWD/benign/open
 tools/run_benign.sh bitmapA C01,C02,C13,C19
 tools/run_benign.sh bitmapB C11,C12,C14,C15,C19
 tools/run_benign.sh bmtree C03,C04,C05,C10,C11,C19
